@@ -25,6 +25,8 @@ import (
 //	s   WriteMessage(Binary, F bytes)               -> one frame
 //	p   WriteMessage(Ping, <=F bytes)
 //	f   WriteFrame(Binary,true,false) WriteFrame(Binary,false,false) WriteFrame(Binary,false,true): one message as a frame sequence
+//	    (the caller stops at the first frame that is refused)
+//	g   WriteFrame(Binary,true,true, F bytes): one single-frame message through the frame API
 //	mm  two WriteMessage calls in a row
 type dcfg struct {
 	f       int
@@ -52,13 +54,13 @@ func startWriterThen(w *world, conn *websocket.Conn, i int, script string, f int
 		case 't':
 			m.payload = payloadFor(i*4+j, 2*f+1)
 			m.op = wsgen.OpText
-		case 's':
+		case 's', 'g':
 			m.payload = payloadFor(i*4+j, f)
 		case 'p':
 			m.kind = 'P'
 			m.payload = payloadFor(i*4+j, 1)
 		}
-		if ch == 'f' {
+		if ch == 'f' || ch == 'g' {
 			m.kind = 'F'
 		}
 		mine = append(mine, m)
@@ -71,34 +73,43 @@ func startWriterMsgs(w *world, conn *websocket.Conn, i int, mine []*outMsg, f in
 	*msgs = append(*msgs, mine...)
 	vsched.GoNamed(fmt.Sprintf("writer%d", i), func() {
 		for _, m := range mine {
-			m.call = w.tick()
 			*inCall++
-			switch m.kind {
-			case 'M':
-				m.err = conn.WriteMessage(websocket.MessageType(m.op), m.payload)
-			case 'P':
-				m.err = conn.WriteMessage(websocket.PingMessage, m.payload)
-			case 'F':
-				p := m.payload
-				n := 0
-				for len(p) > 0 && m.err == nil {
-					k := f
-					if k > len(p) {
-						k = len(p)
-					}
-					m.err = conn.WriteFrame(websocket.BinaryMessage, n == 0, k == len(p), p[:k])
-					p = p[k:]
-					n++
-				}
-				m.partial = m.err != nil && n > 1
-			}
-			m.ret = w.tick()
+			writeOne(w, conn, m, f)
 			*inCall--
 		}
 		if then != nil {
 			then()
 		}
 	})
+}
+
+// writeOne hands message m to conn on the calling thread.
+func writeOne(w *world, conn *websocket.Conn, m *outMsg, f int) {
+	m.call = w.tick()
+	switch m.kind {
+	case 'M':
+		m.err = conn.WriteMessage(websocket.MessageType(m.op), m.payload)
+	case 'P':
+		m.err = conn.WriteMessage(websocket.PingMessage, m.payload)
+	case 'F':
+		p := m.payload
+		n := 0
+		for len(p) > 0 && m.err == nil {
+			k := f
+			if k > len(p) {
+				k = len(p)
+			}
+			r := &frameRec{first: n == 0, fin: k == len(p), data: p[:k], call: w.tick()}
+			m.frames = append(m.frames, r)
+			r.err = conn.WriteFrame(websocket.MessageType(m.op), r.first, r.fin, r.data)
+			r.ret = w.tick()
+			m.err = r.err
+			p = p[k:]
+			n++
+		}
+		m.partial = m.err != nil && n > 1
+	}
+	m.ret = w.tick()
 }
 
 func directBody(c dcfg) func() {
@@ -129,8 +140,37 @@ func directBody(c dcfg) func() {
 				w.failf("write-error|writing %s on an open connection failed: %v", m.id, m.err)
 			}
 		}
-		res := judgeWire(w, fc.wire(), msgs, true, false, c.name())
+		// a hand-made WriteFrame sequence next to another data writer: frame-level rules and the
+		// wholeness of WriteMessage only (see judgeFrames)
+		exposed := false
+		if strings.Contains(strings.Join(c.writers, ""), "f") {
+			dataWriters := 0
+			for _, s := range c.writers {
+				if strings.ContainsAny(s, "mstgf") {
+					dataWriters++
+				}
+			}
+			exposed = dataWriters > 1
+		}
+		if hasFrameCallers(msgs) {
+			judgeFrames(w, fc.writes, msgs, true, c.name())
+		}
+		mw := w
+		if exposed {
+			mw = &world{}
+		}
+		res := judgeWire(mw, fc.wire(), msgs, true, false, c.name())
 		cnt := map[string]int{"messages_on_wire": 0}
+		for _, m := range msgs {
+			for _, r := range m.frames {
+				if r.err == nil {
+					cnt["writeframe_calls_accepted"]++
+				}
+			}
+		}
+		if exposed {
+			cnt["frame_level_only_executions"] = 1
+		}
 		if res.v != nil {
 			cnt["messages_on_wire"] = len(res.v.Events)
 		}
